@@ -1,5 +1,13 @@
-"""T1 for C09 — the serialisation attribute lists of every `BaseSimObj` class, extracted from the
-AST of /repo's *working tree* (no code is executed) → lean/AcnModel/Gen/Serial.lean.
+"""T1 for C09 — the serialisation attribute lists of every `BaseSimObj` class, extracted from
+/repo's *working tree* → lean/AcnModel/Gen/Serial.lean.  Two sources, united per class:
+  (a) the AST (no code is executed; sees every syntactic path, but only literal key lists), and
+  (b) BEHAVIOUR: rich simulator object graphs are built from the working tree (all EVSE / battery /
+      event classes, native and stochastic network, mid-run), `vars(obj)` gives the instance attributes,
+      `obj._to_dict()` the dumped keys (keys holding registry ids are references), and `cls._from_dict`
+      run on a recording dict gives the keys it really reads.
+  (b) makes the table insensitive to HOW the lists are written (comprehension, hoisted class tuple,
+  flipped conditionals …); (a) keeps the classes no live object has (abstract bases) and paths the
+  sample objects do not take.
 
 For every class that (transitively) derives from `BaseSimObj`:
 
@@ -224,20 +232,184 @@ def restored_keys(cls, classes, name="_from_dict", seen=None):
     return out
 
 
+
+# ------------------------------------------------------------------------------------ behavioural source
+
+
+class _Rec(dict):
+    """attribute dict that records the keys `_from_dict` reads"""
+
+    def __init__(self, d):
+        super().__init__(d)
+        self.reads = []
+
+    def __getitem__(self, k):
+        if k not in self.reads:
+            self.reads.append(k)
+        return super().__getitem__(k)
+
+    def get(self, k, default=None):
+        if k not in self.reads:
+            self.reads.append(k)
+        return super().get(k, default)
+
+    def pop(self, k, *a):
+        if k not in self.reads:
+            self.reads.append(k)
+        return super().pop(k, *a)
+
+
+def _rich_sims():
+    """simulators built from the working tree whose object graphs contain every serialisable class"""
+    import sys
+    import warnings
+    from datetime import datetime
+    sys.path.insert(0, REPO)
+    import importlib
+    sim_m = importlib.import_module("acnportal.acnsim.simulator")
+    net_m = importlib.import_module("acnportal.acnsim.network.charging_network")
+    cur_m = importlib.import_module("acnportal.acnsim.network.current")
+    evse_m = importlib.import_module("acnportal.acnsim.models.evse")
+    ev_m = importlib.import_module("acnportal.acnsim.models.ev")
+    bat_m = importlib.import_module("acnportal.acnsim.models.battery")
+    evt_m = importlib.import_module("acnportal.acnsim.events.event")
+    q_m = importlib.import_module("acnportal.acnsim.events.event_queue")
+    alg_m = importlib.import_module("acnportal.algorithms")
+    try:
+        sto_m = importlib.import_module("acnportal.contrib.acnsim.network.stochastic_network")
+    except Exception:  # noqa: BLE001
+        sto_m = None
+    sims = []
+    for netcls in [net_m.ChargingNetwork] + ([sto_m.StochasticNetwork] if sto_m is not None else []):
+        net = netcls()
+        net.register_evse(evse_m.EVSE("S0", max_rate=32), 208, 30)
+        net.register_evse(evse_m.DeadbandEVSE("S1", deadband_end=6, max_rate=32), 208, -90)
+        net.register_evse(evse_m.FiniteRatesEVSE("S2", [0, 8, 16, 24, 32]), 208, 150)
+        net.add_constraint(cur_m.Current(["S0", "S1", "S2"]), 60, name="all")
+        evs = [
+            ev_m.EV(0, 9, 5.0, "S0", "a", bat_m.Battery(20, 2, 6.6), estimated_departure=8),
+            ev_m.EV(1, 7, 4.0, "S1", "b", bat_m.Linear2StageBattery(20, 10, 6.6, noise_level=0.1, transition_soc=0.7,
+                                                                     charge_calculation="stepwise")),
+            ev_m.EV(2, 8, 3.0, "S2", "c", bat_m.Linear2StageBattery(30, 12, 6.6)),
+            ev_m.EV(6, 12, 3.0, "S0", "d", bat_m.Battery(10, 1, 6.6)),
+        ]
+        q = q_m.EventQueue([evt_m.PluginEvent(e.arrival, e) for e in evs] + [evt_m.RecomputeEvent(5), evt_m.RecomputeEvent(11)])
+        with warnings.catch_warnings():
+            warnings.simplefilter("ignore")
+            sim = sim_m.Simulator(net, alg_m.UncontrolledCharging(), q, datetime(2020, 1, 1), period=5, verbose=False,
+                                  store_schedule_history=True)
+            # stop in the middle: pending events of every kind, occupied stations, a non-trivial history
+            import numpy as np
+            np.random.seed(0)
+            for _ in range(4):
+                sim.step(sim.scheduler.run())
+        sims.append(sim)
+    return sims
+
+
+def _objects(sim):
+    """every BaseSimObj of the simulator's graph (by identity)"""
+    base = type(sim).__mro__[-2]  # BaseSimObj
+    seen, out, todo = set(), [], [sim]
+    while todo:
+        o = todo.pop()
+        if id(o) in seen or not isinstance(o, base):
+            continue
+        seen.add(id(o))
+        out.append(o)
+        for v in vars(o).values():
+            stack = [v]
+            while stack:
+                x = stack.pop()
+                if isinstance(x, base):
+                    todo.append(x)
+                elif isinstance(x, dict):
+                    stack.extend(x.values())
+                elif isinstance(x, (list, tuple)):
+                    stack.extend(x)
+    return out
+
+
+def _holds_id(v, ctx):
+    if isinstance(v, str):
+        return v in ctx
+    if isinstance(v, dict):
+        return any(_holds_id(x, ctx) for x in v.values())
+    if isinstance(v, (list, tuple)):
+        return any(_holds_id(x, ctx) for x in v)
+    return False
+
+
+def dynamic_table():
+    """class name ↦ {init, dumped, refs, restored} observed on live objects of the working tree"""
+    import importlib
+    import warnings
+    res = {}
+    for sim in _rich_sims():
+        with warnings.catch_warnings():
+            warnings.simplefilter("ignore")
+            reg, ctx = sim._to_registry()
+            base = type(sim).__mro__[-2]  # BaseSimObj
+
+            def row_of(cname):
+                return res.setdefault(cname, {"init": [], "dumped": [], "refs": [], "restored": []})
+
+            def lineage(cls):
+                # the class itself and its serialisable bases (abstract bases have no live object of their own:
+                # their methods are observed on the subclass objects)
+                return [c for c in cls.__mro__ if issubclass(c, base) and c is not base]
+
+            for o in _objects(sim):
+                for k in vars(o):
+                    _add(row_of(type(o).__name__)["init"], k)
+                for c in lineage(type(o)):
+                    try:
+                        own, octx = c._to_dict(o, {})
+                    except Exception:  # noqa: BLE001
+                        continue
+                    for k, v in own.items():
+                        _add(row_of(c.__name__)["dumped"], k)
+                        if _holds_id(v, octx):
+                            _add(row_of(c.__name__)["refs"], k)
+            for oid, od in ctx.items():
+                mod, _, cname = od["class"].rpartition(".")
+                cls = getattr(importlib.import_module(mod), cname)
+                for c in lineage(cls):
+                    rec = _Rec(od["attributes"])
+                    try:
+                        c._from_dict(rec, ctx, {})
+                    except Exception:  # noqa: BLE001  (the reads made before the failure still count)
+                        pass
+                    for k in rec.reads:
+                        _add(row_of(c.__name__)["restored"], k)
+    return res
+
+
 def table():
     classes, order = _classes()
+    try:
+        dyn = dynamic_table()
+        dyn_err = None
+    except Exception as e:  # noqa: BLE001  (the AST source alone is then used; recorded in the file)
+        dyn, dyn_err = {}, f"{type(e).__name__}: {e}"
     rows = []
     for c in order:
         if c == ROOT or not _derives(c, classes):
             continue
         keys, refs = dumped_keys(c, classes)
-        rows.append({
+        row = {
             "name": c, "file": classes[c]["file"], "base": _base(c, classes) or ROOT,
             "init": init_attrs(c, classes), "dumped": keys, "refs": refs,
             "restored": restored_keys(c, classes),
             "ownDump": _method(classes[c]["node"], "_to_dict") is not None,
             "ownLoad": _method(classes[c]["node"], "_from_dict") is not None,
-        })
+        }
+        for f in ("init", "dumped", "refs", "restored"):
+            for k in dyn.get(c, {}).get(f, []):
+                _add(row[f], k)
+        rows.append(row)
+    table.dyn_err = dyn_err
+    table.dyn_classes = sorted(dyn)
     return rows
 
 
@@ -253,6 +425,8 @@ def gen_serial():
            "  name : String", "  base : String", "  init : List String", "  dumped : List String",
            "  refs : List String", "  restored : List String", "  ownDump : Bool", "  ownLoad : Bool", ""]
     rows = table()
+    out.append(f"-- behavioural source: live objects of classes {getattr(table, 'dyn_classes', [])}"
+               + (f"; FAILED: {table.dyn_err}" if getattr(table, "dyn_err", None) else ""))
     out.append("def serialClasses : List SerialClass := [")
     for i, r in enumerate(rows):
         out.append(f"  -- {r['file']}")
